@@ -37,6 +37,7 @@ impl<RS: Read + Seek> SeekableChain<RS> {
                 r.seek(SeekFrom::Start(0)).unwrap();
                 (size, r)
             })
+            .filter(|(size, _)| *size > 0) // an empty reader would make read return 0 before the end
             .collect();
         let max_pos = chain.iter().map(|(size, _)| size).sum(); // todo saturizing...
         SeekableChain {
@@ -45,7 +46,6 @@ impl<RS: Read + Seek> SeekableChain<RS> {
             cur_idx: 0,
             rel_pos: 0,
             chain,
-            // todo skip ones with have size 0
         }
     }
 
